@@ -358,6 +358,9 @@ def run(ctx, chk, tier="quick"):
     )
     chk.assumptions = ["SpecificYield.integrate is the integral of the specific yield (C14)",
                        "identifier suffixes state units"]
+    from ..sqlrules import lossy_functions
+    lossy_functions(ctx, chk, "C17.O3", ("simulate_rise",), "simulate_rise",
+                    "the level column is both the grid of the simulation and the first column of the table: rounded levels are not the levels of the measured curve")
     from .. import sqltypes
     sqltypes.check(ctx, chk, "C17.O3", modules=("simulate_rise",), views=("average_rising_depth",))
     f = ctx.func("simulate_rise.compute_rise_curve")
